@@ -12,7 +12,6 @@ from harness import core
 ID = 'C25'
 TITLE = 'Migrations are total and reach the current schema'
 PROPS = ['Props/C25']
-DISABLED = True
 RULE = ('Documents "at version K" are generated offline for every K in 0..SCHEMA_VERSION: the version-0 schema of '
         'test_migrations + the real migrations 1..K give the version-K metadata schema; every metadata table gets 0-3 '
         'rows of type-correct cells in the form create_migrations receives them (references to existing rows or 0, '
@@ -1065,7 +1064,8 @@ def correspond(ctx):
     kept.append((before, acts, exc))
     kinds = sorted({type(a).__name__ for a in acts})
     ctx.count(('tds', cases[-1]), nontrivial=bool(acts), kind='tds-stream:' + ('raises' if exc else 'ok'),
-              sample={'actions': [repr(a) for a in acts][:3], 'raises': type(exc).__name__ if exc else None})
+              sample={'stream': 'TableDataSet actions', 'actions': [repr(a) for a in acts][:3],
+                      'raises': type(exc).__name__ if exc else None} if len(kept) <= 2 else None)
     for k in kinds:
       ctx.bump('tds-action:' + k)
   # 2. real migrations on generated documents of every version: driver model + the returned actions replayed
@@ -1087,8 +1087,9 @@ def correspond(ctx):
     runs.append((r, d, a))
     ctx.count(('link', lcases[-1]), nontrivial=bool(r.rec) or needall,
               kind='link:v%02d' % doc.version,
-              sample={'version': doc.version, 'migrations_run': [v for v, _ in r.rec][:4],
-                      'actions': len(r.acts or []), 'user_tables': doc.user_tables})
+              sample={'stream': 'real migrations replayed in the model', 'version': doc.version,
+                      'metadata_only': mo, 'migrations_run': [v for v, _ in r.rec][:4], 'actions': len(r.acts or []),
+                      'user_tables': doc.user_tables} if doc.version in (5, 30) else None)
     ctx.bump('link:need-all-tables' if needall else ('link:meta-only-actions' if meta_only(r.acts)
                                                        else 'link:touches-user-tables'))
   if len(runs) < current_version():
@@ -1348,7 +1349,8 @@ def site_cases(ctx):
                                                core.boollit(ws)))
       info.append((n, text, r.exc))
       ctx.count(('site', n, text), nontrivial=True, kind='sites:m%d:%s' % (n, 'raises' if code else 'ok'),
-                sample={'migration': n, 'cell': text, 'raises': type(r.exc).__name__ if r.exc else None})
+                sample={'stream': 'JSON sites', 'migration': n, 'cell': text,
+                        'raises': type(r.exc).__name__ if r.exc else None} if text in ('[1,2]', '{}') and n in (16, 34) else None)
       if ws and code:
         ctx.broken('sites:migration %d raises on a cell of the expected shape' % n, '%r -> %r' % (text, r.exc))
   return cases, info
